@@ -107,6 +107,33 @@ def setVar (m : State) (x : Nat) (val : Int) : State × List Obs :=
         if next ≤ m.now then trigger m1 x
         else ({ m1 with vars := m1.vars.modify x (fun v => { v with deferred := some next }) }, [])
 
+/-- several assignments without yielding: the trigger tasks they create (`pend`, in order of creation) have
+    not run yet, so `_last_sent` is still the old one; `_trigger_pending` (= membership in `pend`) keeps a
+    second assignment to the same variable from creating a second task. -/
+def assignMany (m : State) (pend : List Nat) : List (Nat × Int) → State × List Nat
+  | [] => (m, pend)
+  | (x, val) :: rest =>
+    match m.vars[x]? with
+    | none => assignMany m pend rest
+    | some v =>
+      if v.value = some val then assignMany m pend rest
+      else
+        let m1 := { m with vars := m.vars.modify x (fun v => { v with value := some val }) }
+        if !v.evented || v.deferred.isSome || pend.contains x then assignMany m1 pend rest
+        else if v.lastSent + v.rate ≤ m.now then assignMany m1 (pend ++ [x]) rest
+        else assignMany { m1 with vars := m1.vars.modify x (fun v => { v with deferred := some (v.lastSent + v.rate) }) }
+               pend rest
+
+/-- the pending `trigger_event` tasks run (each sets `_last_sent`), then the `async_send_events` tasks they created -/
+def flush (m : State) (D : List Nat) : State × List Obs :=
+  let m1 := { m with vars := D.foldl (fun vs x => vs.modify x (fun v => { v with lastSent := m.now })) m.vars }
+  let r := broadcastN D.length m1
+  (r.1, D.map (fun x => .trig x m.now) ++ r.2)
+
+def setMany (m : State) (l : List (Nat × Int)) : State × List Obs :=
+  let r := assignMany m [] l
+  flush r.1 r.2
+
 def findSub (subs : List Sub) (k : Nat) : Option Sub := subs.find? (fun s => s.sid == k)
 
 /-- `subscribe_handler` -/
@@ -190,6 +217,7 @@ def step (m : State) : Op → State × List Obs
   | .subscribe sid cb to => subscribe m sid cb to
   | .unsubscribe sid => unsubscribe m sid
   | .set x v => setVar m x v
+  | .setMany l => setMany m l
   | .adv dt => advance (m.vars.length + 1) m (m.now + dt)
   | .done k => deliveryDone m k
   | .setKey sid k => ({ m with subs := m.subs.map (fun s => if s.sid = sid then { s with key := k } else s) }, [])
